@@ -133,7 +133,8 @@ def r13_3(ctx, rep):
         for n in walk_local(fn):
             if isinstance(n, ast.For):
                 it = n.iter
-                if is_name(it, "CASADI_ATTRIBUTES") or (isinstance(it, ast.Call) and is_name(it.func, "enumerate") and it.args and is_name(it.args[0], "CASADI_ATTRIBUTES")):
+                if is_name(it, "CASADI_ATTRIBUTES") or (isinstance(it, ast.Call) and is_name(it.func, "enumerate") and it.args and is_name(it.args[0], "CASADI_ATTRIBUTES")) \
+                        or (isinstance(it, ast.Call) and is_name(it.func, "zip") and any(is_name(a, "CASADI_ATTRIBUTES") for a in it.args)):
                     loops.append(n)
         # no other literal list of attribute names used as a loop source
         rogue = []
@@ -231,30 +232,39 @@ def affine_rebuild(ctx, rep, R):
     rep.ob(R, site, "Hessian evaluated on every path", w is None,
            "some path decides about the affine rebuild without computing the second derivative: an attribute such as max = 10 / p "
            "(division is an allowed operation) is then linearised at p = 0 and reported as NaN", path=cfg.describe(w) if w else "")
+    # wherever the rebuild is still possible after the test (no `is_affine = False` passed), the Hessian is known to be zero
+    from ..cfg import assume_truth
     clears = True
     for h in hess:
-        if h.kind == "test":
-            ok_h = False
-            for st in ast.walk(fn):
-                if isinstance(st, ast.If) and st.test is h.ast:
-                    neg = isinstance(st.test, ast.UnaryOp) and isinstance(st.test.op, ast.Not)
-                    ok_h = any(norm(s_) == "is_affine = False" for s_ in (st.body if neg else st.orelse))
-            clears = clears and ok_h
+        if h.kind == "stmt":
+            q = h.ast.targets[0].id if isinstance(h.ast.targets[0], ast.Name) else None
         else:
-            hv = h.ast.targets[0].id
-            ok_h = False
-            for st in ast.walk(fn):
-                if isinstance(st, ast.If) and any(norm(s_) == "is_affine = False" for s_ in st.body):
-                    t = norm(st.test)
-                    if t == "not %s" % hv or (("not %s" % hv) in t and " or " in t and " and " not in t):
-                        ok_h = True
-            clears = clears and ok_h
+            zs = [c for c in ast.walk(h.ast) if isinstance(c, ast.Call) and isinstance(c.func, ast.Attribute) and c.func.attr == "is_zero" and "jacobian" in norm(c)]
+            q = norm(zs[0]) if zs else None
+        if q is None:
+            clears = False
+            continue
+        known_zero = {x.id for x in cfg.nodes if x.kind == "assume" and assume_truth(x, q) is True}
+        stops = {x.id for x in cfg.stmts() if norm(x.ast) == "is_affine = False"}
+        start = h.id
+        w2 = cfg.path(start, sink[0].id, avoid=known_zero | stops)
+        clears = clears and w2 is None
     rep.ob(R, site, "non-zero Hessian clears is_affine", clears, "is_affine must become False when the Hessian is not zero")
     # the whitelist in front of the Hessian test: "zero symbolic Hessian => affine" only holds for smooth operations
     wl = None
     for st in ast.walk(fn):
         if isinstance(st, (ast.Set, ast.List, ast.Tuple)) and len(st.elts) >= 4 and all(isinstance(e, ast.Attribute) and e.attr.startswith("OP_") for e in st.elts):
             wl = st
+    if wl is None:
+        # the same set kept as a module-level constant
+        mod = ctx.module(MODEL, R)
+        for st in mod.body:
+            if isinstance(st, ast.Assign) and isinstance(st.targets[0], ast.Name) and any(
+                    isinstance(c, ast.Call) and isinstance(c.func, ast.Attribute) and c.func.attr in ("issubset", "issuperset") and any(is_name(a, st.targets[0].id) for a in c.args)
+                    for c in ast.walk(fn)):
+                for x in ast.walk(st.value):
+                    if isinstance(x, (ast.Set, ast.List, ast.Tuple)) and len(x.elts) >= 4 and all(isinstance(e, ast.Attribute) and e.attr.startswith("OP_") for e in x.elts):
+                        wl = x
     if wl is None:
         raise MechanismMissing(R, "whitelist of allowed operations (a set of ca.OP_* codes) not found in variable_metadata_function")
     ops = sorted({e.attr for e in wl.elts})
@@ -435,13 +445,26 @@ def metadata_rows_total(ctx, rep, R):
     site = MODEL + ":Model.variable_metadata_function"
     cfg = CFG(fn, R)
     loops = [lp for lp in walk_local(fn) if isinstance(lp, ast.For)]
-    attr_loops = [lp for lp in loops if "CASADI_ATTRIBUTES" in norm(lp.iter) and isinstance(lp.iter, ast.Call) and call_name(lp.iter) == "enumerate"]
+    attr_loops = [lp for lp in loops if "CASADI_ATTRIBUTES" in norm(lp.iter) and isinstance(lp.iter, ast.Call) and call_name(lp.iter) in ("enumerate", "zip")]
     if not attr_loops:
-        raise MechanismMissing(R, "loop over enumerate(CASADI_ATTRIBUTES) not found in variable_metadata_function")
+        raise MechanismMissing(R, "loop over enumerate(CASADI_ATTRIBUTES) / zip(<columns>, CASADI_ATTRIBUTES) not found in variable_metadata_function")
     al = attr_loops[0]
-    counter = al.target.elts[0].id if isinstance(al.target, ast.Tuple) and isinstance(al.target.elts[0], ast.Name) else None
+    counter = colvar = None
+    if call_name(al.iter) == "enumerate":
+        counter = al.target.elts[0].id if isinstance(al.target, ast.Tuple) and isinstance(al.target.elts[0], ast.Name) else None
+    elif isinstance(al.target, ast.Tuple) and len(al.target.elts) == len(al.iter.args):
+        # zip(<columns>, CASADI_ATTRIBUTES): the column itself is the loop variable paired with a list that has one entry per attribute
+        for t, a in zip(al.target.elts, al.iter.args):
+            if isinstance(t, ast.Name) and isinstance(a, ast.Name) and a.id != "CASADI_ATTRIBUTES":
+                made = [st for st in ast.walk(fn) if isinstance(st, ast.Assign) and is_name(st.targets[0], a.id) and isinstance(st.value, ast.ListComp)
+                        and "CASADI_ATTRIBUTES" in norm(st.value.generators[0].iter)]
+                if made:
+                    colvar = t.id
+    counter = counter or colvar
 
     def col_append(x):
+        if colvar is not None:
+            return x.kind == "stmt" and any(isinstance(c.func, ast.Attribute) and c.func.attr == "append" and is_name(c.func.value, colvar) for c in calls(x.ast))
         return x.kind == "stmt" and any(isinstance(c.func, ast.Attribute) and c.func.attr == "append" and isinstance(c.func.value, ast.Subscript)
                                         and is_name(c.func.value.slice, counter) for c in calls(x.ast))
 
